@@ -125,9 +125,16 @@ def check_tap(ctx, log, spec, axis, desc):
         ctx.count('predicate_calls_checked')
 
 
-def as_collection(r, ids, kind):
+def as_collection(r, ids, kind, axis_len=None):
     ids = list(ids)
     r.shuffle(ids)
+    if kind == 'dup-padded':
+        # ids repeated until the request is as long as the axis (or one
+        # longer): a request is a set of ids, however often each is named
+        target = (axis_len or len(ids) + 2) + r.choice([0, 0, 1])
+        while ids and len(ids) < target:
+            ids.insert(r.randrange(len(ids) + 1), r.choice(ids))
+        return ids
     if kind == 'list':
         return ids
     if kind == 'tuple':
@@ -167,7 +174,8 @@ def as_collection(r, ids, kind):
 
 COLLS = ['list', 'tuple', 'set', 'frozenset', 'ndarray', 'objarray',
          'dictkeys', 'duplist', 'generator', 'iterator', 'map',
-         'pandas-index', 'pandas-series', 'deque', 'dictvalues']
+         'pandas-index', 'pandas-series', 'deque', 'dictvalues',
+         'dup-padded', 'dup-padded']
 
 
 def note_layout(ctx, t):
@@ -190,7 +198,8 @@ def one_filter(ctx, make, spec, axis, keep, invert, inplace, mode, desc0,
     desc = dict(desc0, op='filter', axis=axis, keep=sorted(keep),
                 invert=invert, inplace=inplace, mode=mode, layout=st)
     if mode == 'ids':
-        arg = as_collection(r, keep, coll) if r is not None else list(keep)
+        arg = as_collection(r, keep, coll, len(spec.ids(axis))) \
+            if r is not None else list(keep)
         res = t.filter(arg, axis=axis, invert=invert, inplace=inplace)
         ctx.count('filter_by_ids')
     else:
